@@ -67,21 +67,33 @@ func segSizes(oe *outExpanded, id uint32) []int {
 	return l
 }
 
-// resegmenter: "seg.reseg H=<key> <chunkDur> <t0> <samples>" -> sizes of the output segments
+// resegmenter: "seg.reseg H=<key> <chunkDur> <t0> <samples>" -> sizes of the output segments.
+// The samples are taken as the tool sees them: sync = Sample.IsSync() = not flagged non-sync AND sample_depends_on = 2
+// (computed here from the flag bits of the samples in the output, which the conservation oracle compares with the input).
 func resegModelCase(c *Ctx, req string, tt *ttrack, oe *outExpanded) {
 	f := strings.Fields(req)
 	if len(f) < 2 || len(tt.samples) == 0 || len(oe.trackIDs) != 1 {
 		return
 	}
+	fs := oe.tracks[oe.trackIDs[0]]
+	if len(fs) != len(tt.samples) {
+		return
+	}
 	// the model accumulates decode times from the first one: only contiguous inputs are comparable
-	t := tt.samples[0].dec
-	for _, s := range tt.samples {
-		if s.dec != t {
+	t := fs[0].DecodeTime
+	p := make([]string, len(fs))
+	for i, s := range fs {
+		if s.DecodeTime != t {
 			return
 		}
-		t += uint64(s.dur)
+		t += uint64(s.Dur)
+		sy := 0
+		if s.Flags&0x00010000 == 0 && (s.Flags>>24)&3 == 2 {
+			sy = 1
+		}
+		p[i] = fmt.Sprintf("%d:%d:%d", s.Dur, s.CompositionTimeOffset, sy)
 	}
-	line := fmt.Sprintf("seg.reseg H=%s %s %d %s", strings.ReplaceAll(req, " ", "/"), f[1], tt.samples[0].dec, samplesArg(tt.samples))
+	line := fmt.Sprintf("seg.reseg H=%s %s %d %s", strings.ReplaceAll(req, " ", "/"), f[1], fs[0].DecodeTime, strings.Join(p, ","))
 	c11Case(c, line, intsArg(fragCounts(oe, oe.trackIDs[0])))
 }
 
